@@ -7,3 +7,4 @@ const verifBoundRootRec = 16
 const verifBoundFile = 6
 const verifBoundIdxLookups = 2
 const verifBoundIdxFile = 72
+const verifBoundTail = 8
